@@ -87,7 +87,21 @@ def run_c15(ctx):
     return cov
 
 
-PROPS = {
+PROPS = {}
+
+
+def _register_areas():
+    import importlib
+    for mod in ("area_hpack", "area_frame", "area_server", "area_client"):
+        try:
+            m = importlib.import_module(mod)
+        except ModuleNotFoundError:
+            continue
+        m.register(PROPS)
+
+
+PROPS.update({
     "C15": dict(module="H2.Props.C15", run=run_c15,
                 assumptions=["HuffmanEncode/HuffmanDecode agree with the Lean model on every generated input (exhaustive to 2 octets); beyond that the tie is the regenerated table plus sampling"]),
-}
+})
+_register_areas()
